@@ -52,8 +52,8 @@ type pCall struct {
 	// DstFresh: the first argument is a plain local slice variable that is declared without a value (nil), with
 	// make(…) or with a composite literal, and whose every later assignment is `x = append(x, …)` or again such a
 	// fresh value: its backing array is allocated inside this function
-	DstFresh bool `json:"dst_fresh"`
-	Text    string `json:"text"`
+	DstFresh bool   `json:"dst_fresh"`
+	Text     string `json:"text"`
 }
 
 type pRead struct {
